@@ -162,6 +162,25 @@ def run(ctx):
             ctab.want((i, tuple(x), tuple(z)), f"@trel QcSR (@fcompose QcSR [0%nat; 1%nat] 2%nat 3%nat 8%nat {fn} {gn}) {len(x) + len(z) + 6} {coq_str(x)} {coq_str(z)}")
             cplan.append((i, f, g, [(x, z)]))
             ctx.dist("compose:crafted-eps-gap")
+    # crafted pairs: the shared tape is ambiguous between the SAME pair of product states (f writes b or c on parallel
+    # arcs p -> p', g reads b or c on parallel arcs q -> q'): the product arc must accumulate both contributions
+    for k in range(6 if quick else 30):
+        wa, wb, wc, wd = [F.fs(Fraction(1, ctx.rng.randint(2, 9))) for _ in range(4)]
+        a_in = ctx.rng.randrange(2)
+        d_out = ctx.rng.randrange(2)
+        f = {"nA": 2, "nB": 2, "init": [[0, "1/1"]], "final": [[1, "1/2"]], "arcs": [[0, a_in, 0, 1, wa], [0, a_in, 1, 1, wb]]}
+        g = {"nA": 2, "nB": 2, "init": [[0, "1/1"]], "final": [[1, "1/3"]], "arcs": [[0, 0, d_out, 1, wc], [0, 1, d_out, 1, wd]]}
+        if ctx.rng.random() < 0.5:   # a longer ambiguous stretch
+            f["arcs"] += [[1, a_in, 0, 1, "1/4"], [1, a_in, 1, 1, "1/5"]]
+            g["arcs"] += [[1, 0, d_out, 1, "1/4"], [1, 1, d_out, 1, "1/7"]]
+        pairs = [([a_in], [d_out]), ([a_in, a_in], [d_out, d_out]), ([a_in], [1 - d_out])]
+        i = base
+        base += 1
+        fn, gn = ctab.transducer(f), ctab.transducer(g)
+        for x, z in pairs:
+            ctab.want((i, tuple(x), tuple(z)), f"@trel QcSR (@fcompose QcSR [0%nat; 1%nat] 2%nat 3%nat 8%nat {fn} {gn}) {len(x) + len(z) + 6} {coq_str(x)} {coq_str(z)}")
+        cplan.append((i, f, g, pairs))
+        ctx.dist("compose:crafted-parallel-arcs")
     ctab.eval()
     res = run_w([{"queries": [{"op": "fst_compose", "f": f, "g": g, "pairs": pairs, "timeout": 30}]} for i, f, g, pairs in cplan])
     for (i, f, g, pairs), r in zip(cplan, res):
